@@ -56,7 +56,10 @@ class AddImplicitCastVisitor(Visitor.DefaultVisitor):
 
     def v_ArrayExpression(self, node, ctx=None):
         assert isinstance(node, ast.ArrayExpression)
-        node.GetExpression().AcceptVisitor(self, ctx)
+        # The array and the index can contain calls, constructors and
+        # operators themselves
+        self.v_Generic(node.GetParent(), ctx)
+        self.v_Generic(node.GetExpression(), ctx)
 
         # We allow Integer or UnsignedInteger as the index
         exprType = node.GetExpression().GetType()
@@ -95,6 +98,9 @@ class AddImplicitCastVisitor(Visitor.DefaultVisitor):
         assert node
         assert isinstance(node, ast.ConstructPrimitiveExpression)
 
+        for argument in node.GetArguments():
+            self.v_Generic(argument, ctx)
+
         # The primitive type of each argument must be the same as the result
         resultType = node.GetType().GetComponentType()
 
@@ -116,6 +122,9 @@ class AddImplicitCastVisitor(Visitor.DefaultVisitor):
 
     def v_CallExpression(self, node, ctx=None):
         assert isinstance(node, ast.CallExpression)
+
+        for argument in node.GetArguments():
+            self.v_Generic(argument, ctx)
 
         # The primitive type of each argument must be the same as the argument type
         argumentTypes = node.function.GetArgumentTypes().values()
